@@ -7,28 +7,100 @@ HOOKS = {
     "add_only": True,
 }
 ENGINES = [
-    {"name": "kani", "path": "cargo kani (0.68.0, CBMC 6.11.0, CaDiCaL)", "serves_properties": ["C09", "C10"],
+    {"name": "kani", "path": "cargo kani (0.68.0, CBMC 6.11.0, CaDiCaL)", "serves_properties": ["C02", "C04", "C05", "C07", "C08", "C09", "C10", "C11", "C12", "C13", "C16", "C18"],
      "kind_free_text": "contract harnesses (assume pre / call real function text / assert post), loop-free over full symbolic domain"},
-    {"name": "verus", "path": "verus 0.2026.09.13 (Z3)", "serves_properties": [],
+    {"name": "verus", "path": "verus 0.2026.09.13 (Z3)", "serves_properties": ["C04", "C05", "C08"],
      "kind_free_text": "lemma layer: unbounded induction over sequences/maps on the kernels the Kani contracts are stated in"},
 ]
 NOTES = "See DESIGN.md. exit 0 = all obligations discharged; exit 1 = VIOLATION (failed obligation, replayed natively where Kani gives a counterexample); exit 2 = undecided (lost anchor, unsupported construct, model limit, timeout) and never a VIOLATION line."
 
+def _c(technique, text, ref, note, engine="kani+verus"):
+    return dict(engine=engine, technique=technique, text=text, design_ref=ref, note=note)
+
+
+_CB = "contract-based deductive verification"
 CLAIMED = {
+    "C02": _c(
+        _CB + ": Kani/CBMC contract harnesses {Agree /\\ wf} handler {Agree /\\ wf} on the message handlers sliced from keyspace/actor.rs, callees linked by contract "
+        "(SpecSet = ORSWOT kernels; ghost store = Storage contract), arbitrary unbounded set and store (havoc maps); bulk handlers bounded (batch <= 2)",
+        "Proof for single set/delete requests: from ANY set and store that agree at the touched id (and a bystander), for any message and any storage outcome, they agree "
+        "afterwards; applied to both or to neither. The ORSWOT contracts the handlers rely on (will_apply predicts insert/delete; kernels) are discharged on the real orswot.rs "
+        "in the same check. Bulk and purge handlers are bounded stand-ins (thorough tier), listed separately and not counted.",
+        "DESIGN.md section 4, C02",
+        "Trusted: ghost store is the Storage contract; SpecSet/ORSWOT equivalence is the os_* obligations; async/await de-sugared (no cancellation); puppet plumbing unverified."),
+    "C04": _c(
+        _CB + ": Kani/CBMC contracts on the verbatim orswot.rs text (try_update_max_stamp, compute_safe_last_stamp, will_apply, insert/delete_with_source) over an arbitrary "
+        "unbounded set (lazy-havoc maps), then a Verus induction (any arrival order ends at the greatest stamp) over the kernels those contracts are stated in",
+        "Proof: per call, for every set of any size, key, 64-bit stamp and source, an accepted insert/delete acts as the LWW kernel, the return value and the will-apply "
+        "prediction are true exactly when the key's slot changed, nothing inside the forgiveness window is refused; Verus lifts this to every finite sequence and every arrival order.",
+        "DESIGN.md section 4, C04",
+        "Trusted: vcoll models std maps on the touched keys; stamps satisfy the type invariant; real-build constants (N=2, forgiveness 3600 s)."),
+    "C05": _c(
+        _CB + ": Kani contract on check_self_then_insert_to (arbitrary unbounded set) == the `lacks` kernel; bounded contract for the diff list shape; Verus lemmas: applying the "
+        "difference leaves the second difference empty, one two-way exchange yields identical live ids and stamps",
+        "Proof of the listing rule per item (sentence 1) for any set; Verus proof of the repair fixpoint and symmetry per key, lifted pointwise, under the stated acceptance "
+        "(window) hypothesis. The shape of the two lists over a whole peer state is a bounded stand-in (thorough tier).",
+        "DESIGN.md section 4, C05",
+        "Window hypothesis => acceptance is a lemma; that every stamp in play is inside one window is the property's own hypothesis. poller.rs glue (handle_removals/modified) is read, not verified."),
+    "C07": _c(
+        _CB + ": bounded Kani contract on load_states_from_storage/load_states sliced from group.rs (ghost row store, recording spawn stand-in), plus the handler contracts of C02 "
+        "(storage written before the in-memory set)",
+        "For every storage content within the bound the state handed to each keyspace actor is exactly the stored rows (ids, stamps, live/tombstone), nothing else; a failed read "
+        "starts nothing. Acked writes are in storage by the Ok branch of the handler contracts.",
+        "DESIGN.md section 4, C07",
+        "Bounded: 2 keyspaces x 2 rows (level 'proof' counts only the class-P obligations it reuses; the load contract is listed under bounded_checks). Convergence after restart (C01) not decided."),
+    "C08": _c(
+        _CB + ": Kani contracts on purge_old_deletes (bounded tombstone map), is_ts_before_last_observed_event, insert/delete (cut-off monotone, refusals change nothing) on the real "
+        "orswot.rs; Verus lemmas: purged deletes stay refused under any later cut-off, purging is invisible to every later operation (simulation step)",
+        "Proof of the local facts for any set: purge removes only tombstones older than the cut-off and never touches live ids or versions; the cut-off never moves backwards; anything "
+        "not newer than a purged delete from that origin is refused forever; with and without the tombstone every later operation decides and lands identically.",
+        "DESIGN.md section 4, C08",
+        "The cluster sentence (timely delivery => same convergence) is reduced to these local facts plus the ASSUMED timing step 'delay + skew < forgiveness => not older than any replica's cut-off'. Stamps >= epoch + 1 h."),
     "C09": dict(
         engine="kani",
-        technique="contract-based deductive verification: Kani/CBMC contract harnesses on HLCTimestamp::send/recv compiled straight from /repo, full 64-bit domain, arbitrary injected wall clock; two-step induction from an arbitrary clock state",
+        technique=_CB + ": Kani/CBMC contract harnesses on HLCTimestamp::send/recv compiled straight from /repo, full 64-bit domain, arbitrary injected wall clock; two-step induction from an arbitrary clock state",
         text="Proof: pre/postconditions of send and recv (strictly increasing, own node id, drift bound, error => unchanged, error reasons) are discharged by CBMC for every clock value, every remote stamp and every wall-clock reading (stalled, backwards, ahead); loop-free, so complete. Histories follow by induction: each step's contract is proved from an arbitrary state.",
         design_ref="DESIGN.md section 4, C09",
         note="Assumes wall clock <= 2^32-1 s after the datacake epoch; std Duration arithmetic as compiled by Kani; the cfg(datacake_verif) hook only replaces the SystemTime read.",
     ),
     "C10": dict(
         engine="kani",
-        technique="contract-based deductive verification: Kani/CBMC contract harnesses on new/pack/accessors/Ord/from_str of the real timestamp.rs; std integer parsers havocked by stubs so from_str is proved total for every parse outcome",
+        technique=_CB + ": Kani/CBMC contract harnesses on new/pack/accessors/Ord/from_str of the real timestamp.rs; std integer parsers havocked by stubs so from_str is proved total for every parse outcome",
         text="Proof: pack/accessor/from_u64 round trips and the lexicographic order are discharged for all field values (all 2^64 pairs for the order); from_str is proved panic-free and field-exact for every outcome of the four integer parsers, and the real splitn runs on inputs with 0..5 fields.",
         design_ref="DESIGN.md section 4, C10",
         note="Not covered: Display formatting (core::fmt) at full width and the rkyv archived form (assumed). Integer parsers are assumed panic-free (stubbed).",
     ),
+    "C11": _c(
+        _CB + ": Kani/CBMC contracts on run_clock, Clock::get_time and Clock::register_ts sliced from datacake-node/src/clock.rs (FIFO stand-in channel, arbitrary wall "
+        "reading per event), composed with the send/recv contracts of the real HLCTimestamp",
+        "Proof under the stated channel assumption: the single-owner actor turns every schedule into an event sequence; from an ARBITRARY clock state any two events produce "
+        "strictly increasing, own-node stamps, a stamp requested after an accepted remote stamp exceeds it, and each caller receives the reply to its own request. Two steps from an arbitrary state are the induction step.",
+        "DESIGN.md section 4, C11",
+        "ASSUMED: flume FIFO/exactly-once delivery to a single receiver, tokio runs the actor, no wall-clock regression between two events, counters clear of exhaustion (else the real actor panics through expect()).", engine="kani"),
+    "C12": _c(
+        _CB + ": Kani/CBMC contracts on DataView::using and to_view_bytes sliced from rkyv_tooling, crc32fast as an uninterpreted function, archived_root's safety precondition asserted, frames of every length <= 40 bytes",
+        "Proof of the frame contract: accepted <=> long enough for the fixed-size part plus trailer AND trailer == checksum(body); no access outside the buffer; sender's frame is accepted.",
+        "DESIGN.md section 4, C12",
+        "ASSUMED dependencies: rkyv (de)serialisation correctness (value equality end to end, Status round trip) and CRC-32's single-bit error detection. Archived sizes 1/8/24, alignment 1.", engine="kani"),
+    "C13": _c(
+        _CB + " (bounded): Kani inductive-step contracts on ServerState::add_handlers/remove_handlers/get_handler sliced from server.rs, from an arbitrary registry state satisfying the invariant",
+        "Bounded contract checking: one add/remove step from ANY registry state satisfying the invariant within 3 services x 2 keys over 4 URIs, observed through get_handler for every URI; "
+        "an inductive step, hence every add/remove history inside that size.",
+        "DESIGN.md section 4, C13",
+        "Locks are exclusive cells; crate::hash injective on registered URIs; HTTP glue in net/server.rs read, not verified.", engine="kani"),
+    "C16": _c(
+        _CB + " (bounded): Kani contract on watch_membership_changes sliced from datacake-node/src/lib.rs for one transition from an arbitrary previous snapshot; consumer fold checked in the same harness",
+        "Bounded contract checking: joined/left are exact for any pair of consecutive snapshots over 3 ids x 2 addresses x 2 DCs (left carries the member as it was, with the address it had); "
+        "applying the events yields exactly the current others; departed addresses are disconnected; the selector gets exactly the current layout.",
+        "DESIGN.md section 4, C16",
+        "Known finding D6 (late/slow subscriber on the latest-value channel) is recorded, see known_findings.txt. Stand-ins for stream, channel, network, selector.", engine="kani"),
+    "C18": _c(
+        _CB + ": rely/guarantee reduction -- one sequential Kani contract on get_or_create_keyspace/add_state sliced from group.rs with an arbitrary (havoc) group map and environment steps at "
+        "both former await points",
+        "Proof (under lock atomicity): every write-locked section preserves an existing binding and the caller gets the bound mailbox; if every writer guarantees that, a name's binding "
+        "never changes once set, whatever the interleaving.",
+        "DESIGN.md section 4, C18",
+        "ASSUMED: parking_lot sections are atomic, no guard across an await, other tasks act only at await points and only add bindings for unbound names (the rely).", engine="kani"),
 }
 
 NOT_APPLICABLE = {
